@@ -177,7 +177,7 @@ static std::string runScenario(bool seq, bool unixSock, bool both, int nclients,
 		else if (pattern == "mixed") { delayUs = (r & 1) ? 0 : (int)((r >> 3) % (unsigned)(stopMs * 1500 + 1)); early = ((r >> 1) % 5 == 0); }
 		bool useUnix = both ? (k % 2 == 1) : unixSock;
 		// in sequential mode a client queues behind the slow ones (up to 2 x 3 s inside serve()): it must wait that long for its reply
-		double replyWait = seq ? 14.0 : 3.0;
+		double replyWait = seq ? 14.0 + 0.15 * nclients : 6.0;   // generous: the wait only matters when a reply is really missing (a loaded machine must not fail it)
 		cl.push_back(std::thread([k, delayUs, holdUs, early, useUnix, port, replyWait, &path, &replies, &sent, &failedAt]() {
 			if (delayUs) usleep(delayUs);
 			String tok = String("c") + String(k);
